@@ -52,6 +52,11 @@ fn expected(text: &str, c: Call) -> Answer {
     }
 }
 
+/// Executions that end in a livelock / deadlock leave threads behind that cannot be reclaimed
+/// (they keep spinning or stay blocked inside the code under test), so a shard stops exploring
+/// once it has this many violations on record.
+const FAIL_FAST: u64 = 6;
+
 pub const TEXTS: &[&str] = &["", "a", "a\nb", "a\nb\n", "a\r\nb\rc", "x\ny\nz\nw"];
 
 fn calls_for(text: &str) -> Vec<Call> {
@@ -281,6 +286,9 @@ pub fn run(ctx: &mut Ctx) {
     let mut schedules = 0;
     for n in ctx.cases("exhaustive-2x1", total) {
         ctx.begin("exhaustive-2x1", n);
+        if ctx.violation_count() >= FAIL_FAST {
+            break;
+        }
         let (t, s) = &scen[n as usize];
         schedules += explore(ctx, &mut j, "exhaustive-2x1", n, t, s, bound21, cap);
         if n % 37 == 0 {
@@ -295,6 +303,9 @@ pub fn run(ctx: &mut Ctx) {
     let mut schedules = 0;
     for n in ctx.cases("exhaustive-2x2", total) {
         let mut rng = ctx.begin("exhaustive-2x2", n);
+        if ctx.violation_count() >= FAIL_FAST {
+            break;
+        }
         let t = *rng.pick(TEXTS);
         let s = random_scripts(&mut rng, t, 2, 2);
         schedules += explore(ctx, &mut j, "exhaustive-2x2", n, t, &s, bound22, cap);
@@ -304,6 +315,9 @@ pub fn run(ctx: &mut Ctx) {
     let mut schedules = 0;
     for n in ctx.cases("bounded-3x1", total) {
         let mut rng = ctx.begin("bounded-3x1", n);
+        if ctx.violation_count() >= FAIL_FAST {
+            break;
+        }
         let t = *rng.pick(TEXTS);
         let s = random_scripts(&mut rng, t, 3, 1);
         schedules += explore(ctx, &mut j, "bounded-3x1", n, t, &s, bound31, cap);
@@ -314,6 +328,9 @@ pub fn run(ctx: &mut Ctx) {
     let total = ctx.size(6_000, 400_000);
     for n in ctx.cases("sampled", total) {
         let mut rng = ctx.begin("sampled", n);
+        if ctx.violation_count() >= FAIL_FAST {
+            break;
+        }
         let t = *rng.pick(TEXTS);
         let (th, ca) = *rng.pick(&[(3usize, 2usize), (3, 3), (4, 1), (4, 2), (4, 3), (2, 3)]);
         let s = random_scripts(&mut rng, t, th, ca);
@@ -333,12 +350,17 @@ pub fn run(ctx: &mut Ctx) {
     ctx.note_add("distinct_yield_point_vectors(this shard)", j.vectors.len() as u64);
 
     // ---- free-running stress (hooks stay installed but inert for uncontrolled threads)
-    stress(ctx, ctx.size(6_000, 300_000), false);
+    if ctx.violation_count() < FAIL_FAST {
+        stress(ctx, ctx.size(6_000, 300_000), false);
+    }
 }
 
 fn stress(ctx: &mut Ctx, rounds: u64, tiny: bool) {
     for n in ctx.cases("free-running", rounds) {
         let mut rng = ctx.begin("free-running", n);
+        if ctx.violation_count() >= FAIL_FAST {
+            break;
+        }
         let t = *rng.pick(TEXTS);
         let threads = if tiny { 3 } else { rng.range_usize(2, 8) };
         let calls = if tiny { 2 } else { rng.range_usize(1, 3) };
